@@ -26,6 +26,7 @@ pub static SCENARIO: Scenario = Scenario {
         "observe-arm tokens are not replayable (uncontrolled OS entropy); their verdict is stable up to the 2^-64 statistical threshold",
         "'nonce equals the draw' is deliberately not required (a design that hashes its entropy also satisfies the property)",
     ],
+    exhaustive: &[],
 };
 
 fn nonce_of(proto: Proto, token: &str) -> Option<Vec<u8>> {
